@@ -1786,9 +1786,17 @@ class Engine:
         elif frag is not None and "head" in frag:
             while body and isinstance(body[0], ast.Expr) and isinstance(body[0].value, ast.Constant):
                 body = body[1:]
-            if frag["head"] > len(body):
-                raise ContractError("fragment: the function has fewer than %d statements" % frag["head"])
-            body = body[:frag["head"]]
+            if frag["head"] == "guard":
+                # the refusal guard: everything up to and including the first top-level statement that can raise
+                # (robust against declarations / comments added in front of it)
+                at = next((i for i, n_ in enumerate(body) if any(isinstance(x, ast.Raise) for x in ast.walk(n_))), None)
+                if at is None:
+                    raise ContractError("fragment: the function has no statement that raises")
+                body = body[:at + 1]
+            else:
+                if frag["head"] > len(body):
+                    raise ContractError("fragment: the function has fewer than %d statements" % frag["head"])
+                body = body[:frag["head"]]
         elif frag is not None:
             loops = [n for n in body if isinstance(n, (ast.While, ast.For))]
             if frag["loop"] > len(loops):
